@@ -144,6 +144,10 @@ pub trait Check: Sync {
     fn hang_signature(&self, stage: &str, kind: &str) -> Option<String> {
         Some(format!("{}@{}", kind, stage))
     }
+    /// a label for the case a worker died in (abort, stack overflow), to make the signature name the kind of case
+    fn abort_label(&self, _tier: Tier, _phase: usize, _input: &Input) -> Option<String> {
+        None
+    }
     /// true if every phase being Exhaustive means the whole check is exhaustive
     fn extra_coverage(&self) -> Vec<(String, serde_json::Value)> {
         vec![]
